@@ -96,6 +96,9 @@ type structArea struct{ reused [2]*eval.Evaluator }
 
 func (a *structArea) Gen(r *hx.Rng, n int, _ string, emit func(string)) {
 	for i := 0; i < n; i++ {
+		if i%24 == 0 { // a history = one evaluator reused for 24 expressions
+			emit("reset")
+		}
 		var s string
 		switch r.Intn(10) {
 		case 0, 1, 2, 3:
@@ -126,6 +129,10 @@ func argText(r *hx.Rng) string {
 
 func (a *structArea) Run(line string) string {
 	f := strings.Fields(line)
+	if len(f) == 1 && f[0] == "reset" {
+		a.reused = [2]*eval.Evaluator{}
+		return "reset"
+	}
 	if len(f) != 2 {
 		return "bad-op"
 	}
